@@ -239,12 +239,26 @@ def run(ctx):
                     elif history == "continued":
                         o.integrate(t0 + (tf - t0) * 0.35)
                         _ = o.sol(np.array(o.t))            # an array query while steps are still being added
+                        # scalar queries while steps are still being added: the answer to a query inside the recorded range must not
+                        # change when the run is continued
+                        early = [float(0.5 * (o.t[0] + o.t[1])), float(0.5 * (o.t[-2] + o.t[-1])), float(o.t[len(o.t) // 2])]
+                        before = [np.array(o.sol(q_)) for q_ in early]
                         o.integrate(t0 + (tf - t0) * 0.8)
+                        after = [np.array(o.sol(q_)) for q_ in reversed(early)][::-1]
                         _ = o.sol(np.array(o.t)[-3:])
                         o.integrate()
+                        after2 = [np.array(o.sol(q_)) for q_ in early]
+                        same = all(np.array_equal(a_, b_) and np.array_equal(a_, c_) for a_, b_, c_ in zip(before, after, after2))
+                        ctx.oracle("answer-unchanged-by-continuation", bool(same), dict(inp, queries=early, before=[v.tolist() for v in before], after=[v.tolist() for v in after2]),
+                                   what="a scalar query inside the recorded range was answered differently after the run had been continued")
                     elif history == "event-resumed":
                         o.integrate(events=[ev_term])
+                        early = [float(0.5 * (o.t[0] + o.t[1])), float(0.5 * (o.t[-2] + o.t[-1]))] if len(o.t) > 2 else []
+                        before = [np.array(o.sol(q_)) for q_ in early]
                         o.integrate()
+                        after = [np.array(o.sol(q_)) for q_ in early]
+                        ctx.oracle("answer-unchanged-by-continuation", all(np.array_equal(a_, b_) for a_, b_ in zip(before, after)), dict(inp, queries=early),
+                                   what="a scalar query inside the recorded range was answered differently after resuming from the terminal event")
                     elif history == "against-span-event":
                         o.integrate(tf, events=[ev_term])
                         o.integrate(tf)
